@@ -193,6 +193,34 @@ Theorem C16_mDCV :
         Ok ENothing).
 Proof. exact codec_mdcv. Qed.
 
+(* sBIT: one byte per channel within 1..sample depth, stored verbatim and charged to the budget *)
+Theorem C16_sBIT :
+  forall (s : dstate) (v : list Z),
+       anc_has KPalette (the_info s) = false ->
+       have_idat s = false ->
+       anc_has KSbit (the_info s) = false ->
+       c_raw s = v ->
+       zlen v <= budget s ->
+       zlen v = sbit_expected (i_color (the_info s)) ->
+       Forall (fun b : Z => 1 <= b <= (if i_color (the_info s) =? 3 then 8 else i_depth (the_info s))) v ->
+       exists s' : dstate,
+         parse_sbit s = (upd_info s' (anc_set KSbit v), Ok ENothing) /\ budget s' = budget s - zlen v.
+Proof. exact codec_sbit. Qed.
+
+(* bKGD of the length the colour type requires, stored verbatim *)
+Theorem C16_bKGD :
+  forall (s : dstate) (v : list Z),
+       anc_has KBkgd (the_info s) = false ->
+       have_idat s = false ->
+       (i_color (the_info s) = 3 -> anc_has KPalette (the_info s) = true) ->
+       c_raw s = v ->
+       zlen v =
+       (if i_color (the_info s) =? 3
+        then 1
+        else if (i_color (the_info s) =? 0) || (i_color (the_info s) =? 4) then 2 else 6) ->
+       parse_bkgd s = (upd_info s (anc_set KBkgd v), Ok ENothing).
+Proof. exact codec_bkgd. Qed.
+
 (* text chunks: keyword (1..79 bytes without NUL) and payload are split at the first NUL *)
 Theorem C16_text_keyword_split :
   forall kw txt : list Z,
@@ -267,6 +295,8 @@ Print Assumptions C16_cLLI.
 Print Assumptions C16_fcTL.
 Print Assumptions C16_cICP.
 Print Assumptions C16_mDCV.
+Print Assumptions C16_sBIT.
+Print Assumptions C16_bKGD.
 Print Assumptions C16_text_keyword_split.
 Print Assumptions C16_first_occurrence_wins.
 Print Assumptions C16_duplicates_are_errors_in_the_parser.
